@@ -211,7 +211,8 @@ CHECKS = {
              "repair mode) whose candidate passes hash and signature checks, i.e. reaches the contextual verifier",
         assumptions=HIST_ASSUME,
         jobs=[dict(test="TestC03", quick=T(6, 60), thorough=T(12, 200, 0, 3000)),
-              dict(test="TestC03Contract", quick=T(2, 60), thorough=T(4, 400, 0, 3000))],
+              dict(test="TestC03Contract", quick=T(2, 60), thorough=T(4, 400, 0, 3000)),
+              dict(test="TestC03Reorg", quick=T(2, 25), thorough=T(4, 150, 0, 3000))],
     ),
     "C05": dict(
         level="exploration",
